@@ -9,8 +9,13 @@ Definition d_objects : list string := builtin_objects.
 Definition d_classes : list (string * nat) := builtin_classes.
 Definition d_types : list (string * list (string * list bool)) := builtin_types.
 
+Definition d_skipnull : bool := cache_write_skips_null.
+Definition d_reread : bool := cache_fetch_rereads.
+Definition d_implements_cached : bool := implements_uses_cache.
+Definition d_implements_method_cached : bool := implements_method_uses_cache.
+
 Extraction Language OCaml.
-Extraction "../ocaml/gen/Dispatch.ml" d_cache_num d_wiring d_objects d_classes d_types
+Extraction "../ocaml/gen/Dispatch.ml" d_skipnull d_reread d_implements_cached d_implements_method_cached d_cache_num d_wiring d_objects d_classes d_types
   step lookup spec_lookup method_result implements_method_result cast_result
   thread_step sys_step run_sched idle_thread check_inv cold_type
   wiring_ids cn_of builtin_decl builtin_imem index_of wired_slot decl_lookup run_history.
